@@ -376,11 +376,12 @@ def run(tier, seed):
                                             "by_class": {CLASSES[c]: sum(1 for _, fs in mon for _, cc in fs if cc == c) for c in CLASSES
                                                          if any(cc == c for _, fs in mon for _, cc in fs)}}
             res.violation("monitor-%d" % i, p)
-        elif rejected or differ or not harness_ok or not proofs_ok or stuck:
+        elif rejected or differ or not harness_ok or not proofs_ok or stuck or unsettled:
             what = ("the snapshot view (model/M5snap.v, %s) rejects an implementation trace" % variant if rejected else
                     "view and observation differ at a crash point (corr.C12corr.view_mismatch)" if differ else
                     "harness does not build/run against the tree" if not harness_ok else
                     "goroutines left parked at the end of a scenario" if stuck else
+                    "a scenario step did not come to rest within the settle bound (harness anomaly)" if unsettled else
                     "proof obligations of props/C12.v do not check")
             if rejected or differ:
                 i = (rejected or differ)[0][0]
